@@ -23,9 +23,24 @@ LETTER = {"xlit": "X", "xform": "T", "erase": "E", "derive": "D", "fuzz": "F", "
 NON_DELETING = ("derive", "fuzz", "abbrev")
 
 MUTATION_DRILLS = [
-    {"mutation": "algebra.cc Script::Merge: `if (yy.type < zz.type)` -> `if (yy.type > zz.type)` (max instead of min on collision)",
-     "ran": "VERIF_REPO=/var/tmp/wt-c09 VERIF_CACHE=/var/tmp/rime-verif-c09 bin/check C09 quick",
-     "fired": "pending"},
+    # each applied by hand in a scratch worktree (git -C /repo worktree add --detach /var/tmp/wt-c09 HEAD), run with
+    # VERIF_REPO=/var/tmp/wt-c09 VERIF_CACHE=/var/tmp/rime-verif-c09 bin/check C09 quick, worktree removed afterwards
+    {"mutation": "algebra.cc Script::Merge: `if (yy.type < zz.type)` -> `>` (max instead of min type on collision)",
+     "fired": "VIOLATION oracle:additive-degraded (a derive round turned the normal spelling 'hz' of syllable 'zhz' into an abbreviation) + 28 model/implementation script mismatches"},
+    {"mutation": "calculus.h Derivation::deletion() returns true (a derive rule deletes the original)",
+     "fired": "VIOLATION oracle:additive (derive/^(.+|.)a$/d$1/ removed spelling 'cdcaa' of syllable 'cdcaa'); also oracle:own-name and the FLAGS stream (D:11 vs D:01)"},
+    {"mutation": "prism.cc Prism::Build: `syllable_to_id[*it] = syll_id++` -> `++syll_id` (wrong syllable id mapping)",
+     "fired": "VIOLATION oracle:roundtrip (QuerySpelling(GetValue('a')) = 1:0:0:-, the script has 0:0:0:-)"},
+    {"mutation": "prism.cc Prism::ExpandSearch: the exact key is no longer pushed to the result",
+     "fired": "VIOLATION oracle:expand (ExpandSearch('a', limit 0) = -, expected [(0, 1)])"},
+    {"mutation": "prism.cc Prism::CommonPrefixSearch: length `len - 1` passed to commonPrefixSearch (off by one)",
+     "fired": "VIOLATION oracle:common-prefix (CommonPrefixSearch('fd') = -, expected [(2, 2)])"},
+    {"mutation": "algebra.cc Script::Merge: `if (yy.credibility > zz.credibility)` -> `<` (min instead of max credibility)",
+     "fired": "VIOLATION oracle:additive-degraded (credibility 0 -> -1 under a derive round)"},
+    {"mutation": "algebra.cc Projection::Apply: `x->addition() && !s.str.empty()` -> `x->addition()` (empty results merged)",
+     "fired": "VIOLATION oracle:empty-key (the empty string became a spelling)"},
+    {"mutation": "prism.cc Prism::ExpandSearch: `++count >= limit` -> `++count > limit` in the scan loop",
+     "fired": "VIOLATION oracle:expand (ExpandSearch('', limit 1) = 0:1,1:1, expected [(0, 1)])"},
 ]
 
 
@@ -170,10 +185,29 @@ class Gen:
         return kind, "%s/%s/%s/" % (kind, p, self.replacement(n))
 
 
-def gen_case(rng, idx):
+def corpus_cases():
+    """hand-kept cases (run first): corpus/C09/cases.jsonl"""
+    import json
+    out = []
+    p = os.path.join(vlib.VERIF, "corpus", "C09", "cases.jsonl")
+    if os.path.exists(p):
+        for i, l in enumerate(open(p, encoding="utf8")):
+            if not l.strip():
+                continue
+            j = json.loads(l)
+            out.append({"id": "k%d" % i, "utf8": any(ord(ch) > 127 for s in j["syls"] for ch in s),
+                        "syls": [s.encode() for s in j["syls"]],
+                        "rules": [(f.split("/")[0], f.encode()) for f in j["rules"]],
+                        "queries": sorted(q.encode() for q in j["queries"]), "limits": j["limits"]})
+    return out
+
+
+def gen_case(rng, idx, big=False):
     g = Gen(rng, utf8=rng.random() < 0.25)
     syls = g.syllables()
-    nrules = rng.choice([0, 1, 1, 2, 2, 3, 3, 4, 5, 6])
+    if big:
+        syls += g.syllables() + g.syllables()
+    nrules = rng.choice([0, 1, 1, 2, 2, 3, 3, 4, 5, 6]) + (rng.randint(0, 4) if big else 0)
     rules = [g.formula(syls) for _ in range(nrules)]
     # explicit queries: random words, mutated syllables; the harness adds every key, every prefix
     # of every key and one-letter extensions itself
@@ -231,11 +265,13 @@ def parse_impl(lines):
         if len(f) < 2:
             continue
         d = by.setdefault(f[0], {"flags": None, "samples": {}, "rounds": {}, "script": None, "stepwise": None,
-                                 "prism": None, "q": [], "loadfail": False, "raw": []})
+                                 "prism": None, "q": [], "loadfail": False, "throws": None, "raw": []})
         d["raw"].append(l)
         tag = f[1]
         if tag == "LOADFAIL":
             d["loadfail"] = True
+        elif tag == "THROWS":
+            d["throws"] = f[2]
         elif tag == "FLAGS":
             d["flags"] = f[2]
         elif tag == "SAMPLE":
@@ -290,14 +326,20 @@ def oracle(c, d):
                         {"spelling": hx(k), "list": [hx(x[0]) for x in lst]}))
         if k == b"":
             bad.append(("empty-key", "the empty string became a spelling", {}))
-    # (b) derive / fuzz / abbrev never remove an existing spelling
+    # (b) derive / fuzz / abbrev never remove an existing spelling (nor degrade it: the entry stays
+    #     with a type no worse and a credibility no lower - C09_additive_rule_keeps)
     for r, (kind, f) in enumerate(c["rules"]):
         if kind in NON_DELETING:
-            after = {(k, x[0]) for k, lst in rounds[r + 1] for x in lst}
+            after = {(k, x[0]): x for k, lst in rounds[r + 1] for x in lst}
             for k, lst in rounds[r]:
                 for x in lst:
-                    if (k, x[0]) not in after:
+                    y = after.get((k, x[0]))
+                    if y is None:
                         bad.append(("additive", "round %d (%s) removed spelling %r of syllable %r" % (r, f.decode("utf8", "replace"), k, x[0]),
+                                    {"round": r, "spelling": hx(k), "syllable": hx(x[0])}))
+                    elif y[1] > x[1] or (y[2].lstrip("-").isdigit() and x[2].lstrip("-").isdigit() and int(y[2]) < int(x[2])):
+                        bad.append(("additive-degraded", "round %d (%s) degraded spelling %r of syllable %r from type %d/credibility %s to type %d/credibility %s"
+                                    % (r, f.decode("utf8", "replace"), k, x[0], x[1], x[2], y[1], y[2]),
                                     {"round": r, "spelling": hx(k), "syllable": hx(x[0])}))
     # (c) own name lost only if a replacing or erasing rule matched it
     if d["stepwise"] == "same":
@@ -390,6 +432,19 @@ def run(ctx):
     ]
     res = vlib.proof_stage(ctx)
     proof_ok = res["ok"]
+    if proof_ok and ctx.tier == "thorough":
+        # independent re-check of the compiled theorems and their whole dependency cone
+        for attempt in (0, 1):
+            rcc, outc = vlib.sh("timeout 900 coqchk -silent -o -Q . RimeV RimeV.Properties_C09", cwd=vlib.COQ, timeout=930)
+            if rcc == 0:
+                break
+        import re as _re
+        m = _re.search(r"\* Axioms:\s*(.*?)\n\s*\n", outc, _re.S)
+        ctx.coverage["coqchk"] = {"rc": rcc, "axioms": (m.group(1).strip() if m else "?")}
+        if rcc != 0 or not m or m.group(1).strip() != "<none>":
+            proof_ok = False
+            res["failed"] = list(res.get("failed", [])) + [("coqchk", 0)]
+            res["log"] += "\ncoqchk:\n" + outc[-3000:]
 
     okm, logm = vlib.coq_make(["Dict/Algebra.vo", "Dict/PrismModel.vo"])
     if not okm:
@@ -401,12 +456,16 @@ def run(ctx):
     exe = vlib.cxx_build(os.path.join(vlib.WORK, "bin", "c09"), [os.path.join(vlib.VERIF, "harness", "c09", "c09.cc")],
                          flags="-I%s/src" % b, libs="-L%s/lib -lrime -lglog -Wl,-rpath,%s/lib" % (b, b))
 
-    ncases = 700 if ctx.tier == "quick" else 6000
+    ncases = 700 if ctx.tier == "quick" else 20000
     rng = random.Random(ctx.seed * 1000003 + 9)
-    cases = [gen_case(rng, i) for i in range(ncases)]
+    cases = corpus_cases()
+    ncorpus = len(cases)
+    cases += [gen_case(rng, i, big=(ctx.tier == "thorough" and i % 5 == 4)) for i in range(ncases)]
+    ncases = len(cases)
     work = ctx.scratch("c09")
     rc, out, err = vlib.sh2([exe, work], stdin="\n".join(case_line(c) for c in cases) + "\n", timeout=1500,
-                            env={"ASAN_OPTIONS": "detect_leaks=0:abort_on_error=0", "UBSAN_OPTIONS": "print_stacktrace=1"})
+                            env={"ASAN_OPTIONS": "detect_leaks=0:abort_on_error=0", "UBSAN_OPTIONS": "print_stacktrace=1",
+                                 "GLOG_minloglevel": "3", "GLOG_logtostderr": "1"})
     lines = [l for l in out.split("\n") if l.strip()]
     impl = parse_impl(lines)
     if rc != 0:
@@ -422,8 +481,8 @@ def run(ctx):
                       found_input=True)
 
     # --- model input = the case + the sampled effects; queries = the ones the harness answered
-    feed, fed = [], []
-    stats = {"cases": 0, "loadfail": 0, "utf8": 0, "rules": {k: 0 for k in KINDS}, "rule_applied": 0, "rule_not_applied": 0,
+    feed, fed, thrown_bad = [], [], []
+    stats = {"cases": 0, "loadfail": 0, "regex_complexity_discarded": 0, "utf8": 0, "rules": {k: 0 for k in KINDS}, "rule_applied": 0, "rule_not_applied": 0,
              "erased_to_empty": 0, "xform_to_empty": 0, "multi_syllable_spellings": 0, "same_syllable_collisions": 0,
              "algebra_not_applied": 0, "script_erased_entirely": 0, "queries": 0, "query_is_key": 0, "query_nonkey": 0,
              "expand_cut_by_limit": 0, "high_byte_alphabets": 0, "max_penalties": 0, "types_seen": {}}
@@ -432,6 +491,10 @@ def run(ctx):
         if d is None or d["script"] is None or d["prism"] is None:
             if d is not None and d["loadfail"]:
                 stats["loadfail"] += 1
+            if d is not None and d["throws"] is not None:
+                stats["regex_complexity_discarded"] += 1
+                if d["throws"] != "apply=0":
+                    thrown_bad.append(c)
             continue
         samples = [d["samples"][r] for r in range(len(c["rules"]))]
         qs = [q[0] for q in d["q"]]
@@ -524,6 +587,7 @@ def run(ctx):
                 "rule on which Projection::Apply reported a modification",
         "samples": samples_out,
         "distribution": stats,
+        "corpus_cases": ncorpus,
         "exhaustive": False,
         "correspondence_mismatches": len(mism),
         "oracle_failures_on_impl": len(orac),
@@ -543,6 +607,9 @@ def run(ctx):
                        "how": "echo '<case_line>' | %s /var/tmp/c09-replay   (prints the script after each round, the final script "
                               "and every query result of the real Projection/Prism)" % exe,
                        "observed": impl[c["id"]]["raw"][:60]}, found_input=True)
+    for c in thrown_bad[:1]:
+        ctx.violation("oracle:throw-not-reported", "a calculation threw but Projection::Apply reported success",
+                      {"case_line": case_line(c), "formulas": [f.decode("utf8", "replace") for _, f in c["rules"]]}, found_input=True)
     if mism and not orac:
         c, first = mism[0]
         ctx.violation("correspondence:c09", "extracted model and implementation disagree",
@@ -559,9 +626,28 @@ def run(ctx):
 
 MANIFEST = {
     "category": "proof",
-    "technique": "Coq theorems (induction over rule lists / key lists) over a Gallina port of Script::Merge, Projection::Apply, "
-                 "Prism::Build and the four prism queries + extracted-model/implementation correspondence with regex effects sampled "
-                 "from the implementation",
-    "text": "pending",
-    "note": "pending",
+    "technique": "Coq theorems (induction over rule lists, key lists and the search loops) over a Gallina port of Script::AddSyllable/Merge, "
+                 "Projection::Apply, Prism::Build and the four prism queries + extracted-model/implementation correspondence in which the "
+                 "regex effect of every calculation is sampled from the implementation",
+    "text": "Properties_C09.v proves, for all syllabaries and all lists of calculations whose per-string effect is an ARBITRARY function "
+            "(so for every regular expression): every spelling of the resulting script is non-empty, has a non-empty list and denotes only "
+            "syllables of the syllabary; a non-deleting rule (derive/fuzz/abbrev - the flags are compared with the implementation's) keeps "
+            "every (spelling, syllable) pair with type no worse and credibility no lower; a syllable loses its own-name spelling only if a "
+            "deleting rule of the list matches its name (and otherwise keeps it as a normal spelling); the script is a strictly sorted map. "
+            "For the prism built from any script: GetValue returns the rank of a spelling in map order and fails for every other string, "
+            "QuerySpelling of that id returns exactly the script's descriptors (syllable id = rank in the syllabary, type, credibility "
+            "through the abstract float cast, tips); CommonPrefixSearch equals the list of (id, length) of the query's prefixes that are "
+            "keys; the coded ExpandSearch loop (FIFO queue, stored alphabet order, early return at the limit) never exhausts the model's fuel "
+            "and equals an explicit specification (exact key, then level by level in alphabet-lexicographic order, cut at the limit), whose "
+            "members are exactly the keys extending the query. Non-vacuity examples are computed. Every run re-checks the proofs, samples "
+            "Calculation::Apply of the current /repo for every (rule, spelling) pair, and diffs Script, flags, prism shape and all four "
+            "queries (every key, every prefix, extensions, random strings, several limits) of the real Projection/Prism (after Save+Load) "
+            "against the extracted model; the property's clauses are also evaluated directly on the implementation's outputs.",
+    "note": "Print Assumptions: closed under the global context for all theorems (no axioms; coqchk -o agrees in the thorough tier). "
+            "Trusted/modelled, not verified: boost::regex and the xlit map (arbitrary function in the proofs, sampled oracle in the "
+            "correspondence); darts-clone (abstract trie of residual key sets) and the mapped-file byte layout incl. Save/Load (identity in "
+            "the model) - both exercised only by the harness; double arithmetic on credibilities (carried as exact penalty counts; the "
+            "harness decodes by exact equality with the iterated sum and its float cast); the runtime_error exit of Projection::Apply "
+            "(cases where boost::regex throws are discarded after checking that Apply reports failure); NUL-free, non-empty syllables; "
+            "ExtrOcamlBasic extraction and the OCaml/C++/python glue. The correspondence is testing and only validates the model.",
 }
